@@ -11,7 +11,7 @@ from ..model import AnalysisError, norm_stmt, parent_map, walk_no_nested
 from ..nphooks import Tagged
 from ..report import Ctx
 from ..symnp import call_numpy
-from .c13 import _HSim, _ctor, _freeze
+from .c13 import _HSim, _bound, _ctor, _freeze
 
 EXPLANATION = (
     'R19.1: every file opened in a truncating mode inside a loop (cli module) must have a path that depends on '
@@ -331,8 +331,8 @@ def _r194(ctx: Ctx) -> None:
                         if cc[0] != req['code_class'] or ec[0] != req['noise_class'] or dc[0] != req['decoder_class']:
                             bad = f'classes {cc[0]}/{ec[0]}/{dc[0]} differ from the requested names'
                         for r_ in rts:
-                            got.append((_freeze(cc[2] or cc[1]), r_))
-                        direction = {k: v for k, v in (ec[2] or {}).items() if k.startswith('r_')}
+                            got.append((_freeze(_bound(m, cc)), r_))
+                        direction = {k: v for k, v in _bound(m, ec).items() if k.startswith('r_')}
                         seen_dirs.append(tuple(sorted(direction.items())))
                         bad = bad or _params_accepted(ctx, cc, ec, dc)
                         continue
@@ -343,12 +343,13 @@ def _r194(ctx: Ctx) -> None:
                     cc, ec, dc = _ctor(code), _ctor(em), _ctor(dec)
                     if cc[0] != req['code_class'] or ec[0] != req['noise_class'] or dc[0] != req['decoder_class']:
                         bad = f'classes {cc[0]}/{ec[0]}/{dc[0]} differ from the requested names'
-                    got.append((_freeze(cc[2] or cc[1]), rate))
-                    direction = {k: v for k, v in (ec[2] or {}).items() if k.startswith('r_')}
+                    got.append((_freeze(_bound(m, cc)), rate))
+                    ecb = _bound(m, ec)
+                    direction = {k: v for k, v in ecb.items() if k.startswith('r_')}
                     if abs(sum(direction.values()) - 1) > 1e-12 or len(direction) != 3:
                         bad = f'noise direction {direction} does not sum to 1'
-                    if req['deformation_name'] != (ec[2] or {}).get('deformation_name'):
-                        bad = f'deformation name {(ec[2] or {}).get("deformation_name")!r} != requested'
+                    if req['deformation_name'] != ecb.get('deformation_name'):
+                        bad = f'deformation name {ecb.get("deformation_name")!r} != requested'
                     seen_dirs.append(tuple(sorted(direction.items())))
                     bad = bad or _params_accepted(ctx, cc, ec, dc)
                 want = [(_freeze(sz), r) for sz in sizes for r in rates]
